@@ -12,6 +12,7 @@ for d in /verif/seeded/*/; do
   cd $WT && git checkout -q -- . && git clean -qfd -e target
   feat=""; grep -q miniwasm $d/meta.json && feat="--features miniwasm"
   pkg="-p staking"; grep -q "contracts/treasury" $d/demo.diff && pkg="-p treasury"
+  grep -q "packages/initia-proto/tests" $d/demo.diff && { pkg="-p initia-proto --test seeded_demo"; feat=""; }
   r_apply_demo=$(git apply $d/demo.diff 2>&1 && echo ok)
   clean=$(cargo test $pkg $feat --offline seeded 2>&1 | grep -E "^test result" | head -1)
   r_apply_patch=$(git apply $d/patch.diff 2>&1 && echo ok)
